@@ -125,6 +125,22 @@ pub fn configure_memory(mem: &mut sc62015_core::memory::MemoryImage, cfg: &Value
             mem.add_rom_overlay(u(p, 0) as u32, &data, &format!("romov{i}"));
         }
     }
+    if let Some(Value::Array(r)) = cfg.get("taps") {
+        // passive descriptor overlays (no data, no handlers): they decline every access, which must then fall through
+        for (i, p) in r.iter().enumerate() {
+            let start = u(p, 0) as u32;
+            mem.add_overlay(sc62015_core::memory::MemoryOverlay {
+                start,
+                end: start + (u(p, 1) as u32).max(1) - 1,
+                name: format!("atap{i}"),
+                data: None,
+                read_only: false,
+                read_handler: None,
+                write_handler: None,
+                perfetto_thread: None,
+            });
+        }
+    }
     if let Some(Value::Array(r)) = cfg.get("ext") {
         for p in r {
             mem.write_external_byte(u(p, 0) as u32, u(p, 1) as u8);
